@@ -52,6 +52,7 @@ class World:
         self.net = net
         self.ref = net_to_ref(net)
         self.config = dict(DEFAULT_CONFIG) if config is None else dict(config)
+        self.config_given = config is not None
         self.walk_seed = walk_seed
         self.reorder_seed = reorder_seed
         self.reorder_rng = None
@@ -130,7 +131,14 @@ class World:
     def construct(self):
         def mk():
             bn = build_network(self.net)
-            self.sd = SuccessionDiagram(bn, dict(self.config))
+            if not self.config_given:
+                # the shipped default path (config=None)
+                self.sd = SuccessionDiagram(bn)
+            else:
+                # the documented way to customise: start from default_config() and edit it
+                cfg = SuccessionDiagram.default_config()
+                cfg.update(self.config)
+                self.sd = SuccessionDiagram(bn, cfg)
             return None
 
         out = self._guarded(mk)
